@@ -381,7 +381,7 @@ def depth_levels(spec):
 # ---------------------------------------------------------------- strategy
 @st.composite
 def specs(draw, tier='quick', max_books=2, arrays=True, names=True, wholecols=True, errors=True,
-          min_cells=4, max_cells=14, const=None, sheet_classes=None):
+          min_cells=4, max_cells=14, const=None, sheet_classes=None, name_rate=6):
     nb = draw(st.integers(1, max_books))
     used_names = set()
     books = []
@@ -426,8 +426,8 @@ def specs(draw, tier='quick', max_books=2, arrays=True, names=True, wholecols=Tr
         later = {k for ks in all_keys[idx:] for k in ks}
         ctx = dict(spec=spec, locs=locs, earlier=earlier, later=later, cur=key, errors=errors,
                    wholecols=wholecols, ncols_used=ncols_used, names_ok=names)
-        if names and earlier and len(spec['names']) < 2 and draw(st.integers(0, 5)) == 0:
-            rect = draw(_rect(ctx, small=True))
+        if names and earlier and len(spec['names']) < 2 and draw(st.integers(0, name_rate - 1)) == 0:
+            rect = draw(_dense_rect(ctx)) if draw(st.booleans()) else draw(_rect(ctx, small=True))
             if rect is not None:
                 spec['names'].append({'name': NAME_POOL[len(spec['names'])], 'rect': list(rect), 'since': idx})
         if arr is not None:
@@ -480,6 +480,28 @@ def _rect(draw, ctx, small=False, shape=None):
 
 
 @st.composite
+def _dense_rect(draw, ctx):
+    """A rectangle made only of already created cells (so that overriding it as a whole is meaningful)."""
+    if not ctx['earlier']:
+        return None
+    E = set(ctx['earlier'])
+    b, s, r, c = draw(st.sampled_from(ctx['earlier']))
+    right, below = (b, s, r, c + 1) in E, (b, s, r + 1, c) in E
+    if right and below and (b, s, r + 1, c + 1) in E and draw(st.booleans()):
+        return (b, s, r, c, r + 1, c + 1)
+    if right and (not below or draw(st.booleans())):
+        return (b, s, r, c, r, c + 1)
+    if below:
+        return (b, s, r, c, r + 1, c)
+    left, above = (b, s, r, c - 1) in E, (b, s, r - 1, c) in E
+    if left:
+        return (b, s, r, c - 1, r, c)
+    if above:
+        return (b, s, r - 1, c, r, c)
+    return (b, s, r, c, r, c)
+
+
+@st.composite
 def _scalar_ref(draw, ctx):
     kind = draw(st.integers(0, 9))
     names = ctx['spec']['names']
@@ -516,7 +538,7 @@ def _range_arg(draw, ctx):
         if not bad:
             ctx['ncols_used'][0] += 1
             return ['col', [b, s, c1, c2]]
-    rect = draw(_rect(ctx))
+    rect = draw(_dense_rect(ctx)) if kind in (2, 3) else draw(_rect(ctx))
     if rect is None:
         return draw(_scalar_ref(ctx))
     t = ['rng', list(rect)]
